@@ -6,5 +6,5 @@ CONSTANTS
   EmitOps = {"message","run_spawned","run_ended","side_effects","cursor_update","checkpoint","cut_points","status","auto","schedule","cursor_status","cursor_rotate","selection_status","replay","branch","handoff"}
   PathOps = {"message","run_spawned","run_ended","side_effects","cursor_update","checkpoint","cut_points","status","auto","schedule","cursor_status","cursor_rotate","selection_status","replay","branch","handoff"}
 VIEW View
-INVARIANTS Emit CutPointsAreStrideMessages AutoIdempotent ReadOnlyQuiet LineageSound
+INVARIANTS Emit CutPointsAreStrideMessages AutoIdempotent ReadOnlyQuiet LineageSound BundleSound
 CHECK_DEADLOCK FALSE
